@@ -38,7 +38,7 @@ ASSUMPTIONS = ['"custody" = QueueStorage.write returned an id (Queue) / the '
                'relay accepted every recipient (ProxyQueue)']
 CELL_BUDGET_S = {'quick': 200, 'thorough': 1200}
 SAMPLE_P = 0.01
-MAX_WITNESSES = 6
+MAX_WITNESSES = 10
 
 RCPTS = ['a@x.com', 'b@y.com', 'c@X.com', 'd@z.org']
 CHAINS = {'none': [], 'domain': ['domain'], 'rcpt': ['rcpt'],
